@@ -13,6 +13,7 @@
 //	hang          block until killed (at most 90 s)
 //	spawn:<name>  start a detached grandchild "<name>;hang" that inherits stdout
 //	mark:<path>   create a file (proof that the child ran)
+//	append:<path>:<text>  open a file with O_APPEND and write text to it
 //
 // With a control socket every step is a handshake with the simulator ("at i step" -> "go",
 // then an acknowledgement), so the simulator decides when the child moves. With "-" the
@@ -100,6 +101,15 @@ func main() {
 				os.Stdout.Write(b)
 			}
 			send("done cat")
+		case "append":
+			// append:<path>:<text> - another writer appending to a file the program has open
+			path, text, _ := strings.Cut(arg, ":")
+			f, err := os.OpenFile(path, os.O_APPEND|os.O_CREATE|os.O_WRONLY, 0644)
+			if err == nil {
+				f.WriteString(text)
+				f.Close()
+			}
+			send(fmt.Sprintf("done append %v", err == nil))
 		case "mark":
 			os.WriteFile(arg, []byte(name), 0644)
 			send("done mark")
